@@ -24,7 +24,7 @@ set_option linter.unusedSectionVars false
 set_option linter.unusedSimpArgs false
 set_option linter.unusedVariables false
 namespace Zk.C08
-open Zk Res
+open Zk Res Zk.Total
 
 section
 variable {S G1 G2 : Type}
@@ -350,6 +350,12 @@ theorem commit_total (hp : NoHashPanic env cs) (committedMessages : Option (List
 
 /-! ### Work is bounded by the size of the input -/
 
+/-- The variable-length decoders (`PoKSignature`, `ZKPoK`, `Commitment`) cut their input
+into at most `len / 32` chunks and decode each once (`decodeScalars` is a single `mapRes`
+pass): allocation is linear in the input. -/
+theorem decode_chunks_bound (n : Nat) (b : Bytes) : (chunks32 n b).length ≤ b.length / 32 :=
+  chunks32_length_le n b
+
 /-- The signer's blind-generator count is bounded by the length of the commitment. -/
 theorem blindSignM_le (len M : Nat) (h : blindSignM len = some M) : M ≤ len / 32 := by
   unfold blindSignM uSub? at h
@@ -457,6 +463,17 @@ theorem sign_panic_lawful (hl : Lawful env pair) (cs : Suite G1) (hp : NoHashPan
   by_contra hne
   rw [hl.sInv_ne _ hne] at h5
   cases h5
+
+/-- The bare-model theorems apply verbatim in the lawful (field/module) setting. -/
+example (hl : Lawful env pair) (cs : Suite G1) (hp : NoHashPanic env cs) (π : PoKSignature S G1)
+    (pk : G2) (dm : Option (List Bytes)) (di : Option (List Nat)) (header ph : Option Bytes) :
+    proofVerify env cs π pk dm di header ph ≠ .panic := proofVerify_total hp π pk dm di header ph
+
+/-- Contrapositive form: a panicking `verify` exhibits a panicking generator creation. -/
+example (cs : Suite G1) (σ : Signature S G1) (pk : G2) (m : Option (List Bytes))
+    (header : Option Bytes) (h : verify env cs σ pk m header = .panic) :
+    ∃ n api, Generators.create env cs n api = .panic :=
+  panic_imp_generator_panic _ (fun hp => verify_total hp σ pk m header) h
 
 end
 end Zk.C08
